@@ -7,6 +7,7 @@ import (
 	"strings"
 	"sync"
 	"testing"
+	"time"
 
 	"github.com/olive-io/bpmn/schema"
 	bpmn "github.com/olive-io/bpmn/v2"
@@ -34,6 +35,12 @@ type procSpec struct {
 	// A message flow wakes the referenced catch event - whatever it listens for.
 	ExtraDefs int  `json:"extraDefs,omitempty"`
 	ParMulti  bool `json:"parMulti,omitempty"`
+	// fanThrower: after its Pre tasks a parallel fork passes one throw event per
+	// entry of Fan at the same moment (each with a message flow to that process)
+	Fan []int `json:"fan,omitempty"`
+	// waiting: the instantiated process passes a throw event (no message flow)
+	// right behind its start event
+	ThrowFirst bool `json:"throwFirst,omitempty"`
 }
 
 type action struct {
@@ -49,6 +56,10 @@ type descriptor struct {
 	// CallerTracer: the caller passes its own tracer (bpmn.WithTracer) to
 	// NewProcessSet and observes the set through it
 	CallerTracer bool `json:"callerTracer,omitempty"`
+	// SlowStart: every StartWith call is held up for 20 ms right after it
+	// triggered its start event (instead of the drawn perturbation): the tokens
+	// of a process that the set instantiates run ahead of the set's loop
+	SlowStart bool `json:"slowStart,omitempty"`
 }
 
 type builtProc struct {
@@ -56,8 +67,10 @@ type builtProc struct {
 	g     *gen.Graph
 	id    string
 	throw string // throw node id
-	hook  string // catch node id or message start id (target of a message flow)
-	start string
+	// throws: throw node id -> target process (fanThrower)
+	throws map[string]int
+	hook   string // catch node id or message start id (target of a message flow)
+	start  string
 }
 
 type built struct {
@@ -94,7 +107,32 @@ func build(d descriptor) *built {
 		case "waiting":
 			st.Defs = []gen.EventDef{{Kind: "message", Ref: fmt.Sprintf("msg_%d", i)}}
 			bp.hook = st.ID
+			if ps.ThrowFirst {
+				th := b.Add(gen.KThrow)
+				b.Connect(cur, th)
+				cur = th
+			}
 			addTasks(ps.Pre)
+		case "fanThrower", "waitingFan":
+			if ps.Kind == "waitingFan" {
+				// instantiated by a message flow; passes its throw events at once
+				st.Defs = []gen.EventDef{{Kind: "message", Ref: fmt.Sprintf("msg_%d", i)}}
+				bp.hook = st.ID
+			}
+			addTasks(ps.Pre)
+			fork := b.Add(gen.KPar)
+			b.Connect(cur, fork)
+			bp.throws = map[string]int{}
+			for _, tgt := range ps.Fan {
+				th := b.Add(gen.KThrow)
+				th.Defs = []gen.EventDef{{Kind: "message", Ref: fmt.Sprintf("msg_%d", tgt)}}
+				b.Connect(fork, th)
+				en := b.Add(gen.KEnd)
+				b.Connect(th, en)
+				bp.throws[th.ID] = tgt
+			}
+			bt.procs = append(bt.procs, bp)
+			continue
 		case "thrower":
 			addTasks(ps.Pre)
 			th := b.Add(gen.KThrow)
@@ -141,13 +179,24 @@ func build(d descriptor) *built {
 			bt.flows[bp.throw] = bp.spec.Target
 			k++
 		}
+		ths := make([]string, 0, len(bp.throws))
+		for th := range bp.throws {
+			ths = append(ths, th)
+		}
+		sort.Strings(ths)
+		for _, th := range ths {
+			tgt := bt.procs[bp.throws[th]]
+			fmt.Fprintf(&sb, `<bpmn:messageFlow id="MF_%d" sourceRef="%s" targetRef="%s"/>`, k, th, tgt.hook)
+			bt.flows[th] = bp.throws[th]
+			k++
+		}
 	}
 	sb.WriteString("</bpmn:collaboration>\n")
 	prog := &gen.Program{DefaultLang: "expr"}
 	msgs := map[string]bool{}
 	sigs := map[string]bool{}
 	for _, bp := range bt.procs {
-		fmt.Fprintf(&sb, `<bpmn:process id="%s" isExecutable="%v">`+"\n", bp.id, bp.spec.Kind != "waiting")
+		fmt.Fprintf(&sb, `<bpmn:process id="%s" isExecutable="%v">`+"\n", bp.id, bp.spec.Kind != "waiting" && bp.spec.Kind != "waitingFan")
 		sb.WriteString(gen.GraphXML(bp.g, prog))
 		sb.WriteString("</bpmn:process>\n")
 		bp.g.AllNodes(func(n *gen.Node, _ *gen.Graph) {
@@ -212,7 +261,10 @@ func runCase(d descriptor) *result {
 		r.Symptom, r.Detail = "generator", err.Error()+"\n"+bt.xml
 		return r
 	}
-	if d.Perturb != 0 {
+	if d.SlowStart {
+		perturb.Hold("process.startwith", 20*time.Millisecond)
+		defer perturb.Remove()
+	} else if d.Perturb != 0 {
 		perturb.Install(d.Perturb, 50, map[string]bool{"processset.startall": true, "process.startwith": true, "tracer.send": true, "processset.trigger": true})
 		defer perturb.Remove()
 	}
@@ -297,16 +349,19 @@ func runCase(d descriptor) *result {
 		bp := bt.procs[i.proc]
 		for _, fid := range obs.Flows {
 			f := bp.g.Flow(fid)
-			if f == nil || f.Src != bp.throw {
+			if f == nil {
 				continue
 			}
-			ti, ok := bt.flows[bp.throw]
+			if _, fan := bp.throws[f.Src]; f.Src != bp.throw && !fan {
+				continue
+			}
+			ti, ok := bt.flows[f.Src]
 			if !ok {
 				continue
 			}
 			tp := bt.procs[ti]
 			switch tp.spec.Kind {
-			case "waiting":
+			case "waiting", "waitingFan":
 				ni := &inst{m: model.New(tp.g, d.Vars), proc: ti}
 				insts = append(insts, ni)
 				r.Instantiated++
@@ -339,7 +394,7 @@ func runCase(d descriptor) *result {
 		}
 	}
 	for pi, bp := range bt.procs {
-		if bp.spec.Kind == "waiting" {
+		if bp.spec.Kind == "waiting" || bp.spec.Kind == "waitingFan" {
 			continue
 		}
 		ni := &inst{m: model.New(bp.g, d.Vars), proc: pi}
@@ -619,6 +674,51 @@ func draw(rt *rapid.T) descriptor {
 		}
 		d.Procs = append(d.Procs, tgt)
 		d.Actions = append(d.Actions, action{Kind: "answerAll"})
+		for i := rapid.IntRange(0, 6).Draw(rt, "actions"); i > 0; i-- {
+			d.Actions = append(d.Actions, action{Kind: rapid.SampledFrom([]string{"answer", "answerAll", "wait"}).Draw(rt, "akind"), Arg: rapid.IntRange(0, 5).Draw(rt, "arg")})
+		}
+		return d
+	}
+	if rapid.IntRange(0, 4).Draw(rt, "fanOut") == 0 {
+		// ONE process passes 2..8 throw events at the same moment (parallel
+		// fork): into one listening catch event, or each into a waiting process
+		// of its own (which may pass a throw event itself right after its start)
+		k := rapid.IntRange(2, 8).Draw(rt, "throws")
+		fan := procSpec{Kind: "fanThrower", Pre: 1, Target: -1}
+		if rapid.IntRange(0, 2).Draw(rt, "instantiatedFan") == 0 {
+			// the forking process is itself instantiated by a message flow and
+			// passes its throw events the moment it is started:
+			//   [0] thrower(task, throw -> 1)  [1] waitingFan -> 2..k+1 waiting
+			fan = procSpec{Kind: "waitingFan", Pre: 0, Target: -1}
+			for i := 0; i < k; i++ {
+				fan.Fan = append(fan.Fan, 2+i)
+			}
+			d.SlowStart = rapid.Bool().Draw(rt, "slowStart")
+			d.Procs = append(d.Procs, procSpec{Kind: "thrower", Pre: 1, Post: 0, Target: 1}, fan)
+			for i := 0; i < k; i++ {
+				d.Procs = append(d.Procs, procSpec{Kind: "waiting", Pre: rapid.IntRange(0, 1).Draw(rt, "pre"), Target: -1, ThrowFirst: rapid.Bool().Draw(rt, "throwFirst")})
+			}
+			d.Actions = append(d.Actions, action{Kind: "answer"})
+			for i := rapid.IntRange(0, 6).Draw(rt, "actions"); i > 0; i-- {
+				d.Actions = append(d.Actions, action{Kind: rapid.SampledFrom([]string{"answer", "answerAll", "wait"}).Draw(rt, "akind"), Arg: rapid.IntRange(0, 5).Draw(rt, "arg")})
+			}
+			return d
+		}
+		if rapid.IntRange(0, 2).Draw(rt, "intoOneCatch") == 0 {
+			for i := 0; i < k; i++ {
+				fan.Fan = append(fan.Fan, 1)
+			}
+			d.Procs = append(d.Procs, fan, procSpec{Kind: "catcher", Pre: 0, Post: rapid.IntRange(0, 1).Draw(rt, "post"), Target: -1})
+		} else {
+			for i := 0; i < k; i++ {
+				fan.Fan = append(fan.Fan, 1+i)
+			}
+			d.Procs = append(d.Procs, fan)
+			for i := 0; i < k; i++ {
+				d.Procs = append(d.Procs, procSpec{Kind: "waiting", Pre: rapid.IntRange(0, 1).Draw(rt, "pre"), Target: -1, ThrowFirst: rapid.Bool().Draw(rt, "throwFirst")})
+			}
+		}
+		d.Actions = append(d.Actions, action{Kind: "answer"})
 		for i := rapid.IntRange(0, 6).Draw(rt, "actions"); i > 0; i-- {
 			d.Actions = append(d.Actions, action{Kind: rapid.SampledFrom([]string{"answer", "answerAll", "wait"}).Draw(rt, "akind"), Arg: rapid.IntRange(0, 5).Draw(rt, "arg")})
 		}
